@@ -259,7 +259,9 @@ class Environment:
                 until = Event(self)
                 until._ok = True
                 until._value = None
-                self.schedule(until, URGENT, at - self.now)
+                # Push the stop marker at the absolute time `at`: `now + (at - now)`
+                # is not always `at` in floating point.
+                heappush(self._queue, (at, URGENT, next(self._eid), until))
 
             elif until.callbacks is None:
                 # Until event has already been processed.
